@@ -97,9 +97,13 @@ def run_for_property(prop):
     """Run every mutant that lists `prop` against the rules of `prop`; {name: 'CAUGHT'|'MISSED'|'ERROR'}."""
     man = load_manifest()
     jobs = []
+    # a mutant is listed under the property it is aimed at (first entry) and under properties somebody thought might notice it
+    # as well; only the first is a claim ("this check must fire"), the others are reported as information
+    primary = {}
     for name, m in sorted(man["mutants"].items()):
         if prop in m.get("properties", []):
             jobs.append((name, os.path.join(fw.VERIF, m["patch"]), [prop], 0))
+            primary[name] = m.get("properties", [None])[0] == prop
     if not jobs:
         return {}
     workers = min(8, len(jobs))
@@ -116,7 +120,7 @@ def run_for_property(prop):
                     out[name] = "ERROR: " + r["error"][:100]
                 else:
                     fired = sorted({rule for rule, key, d in r["violations"].get(prop, [])})
-                    out[name] = ("CAUGHT by " + ",".join(fired)) if fired else "MISSED"
+                    out[name] = ("CAUGHT by " + ",".join(fired)) if fired else ("MISSED" if primary.get(name) else "not reported by this check (aimed at %s; listed here as possibly related)" % man["mutants"][name]["properties"][0])
     _leave_scratch()
     return out
 
